@@ -353,6 +353,18 @@ var ioEvalErrExprs = []string{"abs(s)", "sort_by(mixed, &k)", "length(n)", "max_
 var ioNumberExprs = []string{"abs(id)", "type(id)", "items[?id > `10`].v", "id == `9007199254740992`", "sum(nums)", "nums[0]", "max(nums)", "sort(nums)", "nums", "n", "abs(n)", "objs[?k > `5`].s", "sort_by(objs, &k)[0].s", "max_by(objs, &k).s",
 	"nums[?@ > `1`]", "avg(nums)", "to_string(nums)", "to_number(to_string(id))", "id", "ceil(nums[3])", "nums[0] == nums[0]", "objs[0].k == objs[1].k", "length(nums)", "floor(n)", "@"}
 
+// ioErrCombos: an erroring sub-expression next to literals and operators — the error must
+// reach the exit status whatever surrounds it.
+var ioErrCombos = func() []string {
+	var out []string
+	for _, e := range []string{"abs(s)", "nums[::0]", "sort_by(mixed, &k)", "length(n)", "unknown_fn(nums)", "sum(strs)"} {
+		for _, t := range []string{"E | `1`", "E | 'checked'", "E | `[]`", "E || `1`", "E && `1`", "`1` | E", "[E, `1`]", "{a: E, b: `1`}", "not_null(E, `1`)", "nums[?E]", "objs[*].{k: k, e: E}", "(E) | @", "[`1`, E][0]", "E | nums", "nums | E | `1`", "!(E)", "E == `1`"} {
+			out = append(out, strings.Replace(t, "E", e, -1))
+		}
+	}
+	return out
+}()
+
 var ioOddResultExprs = []string{"avg(e)", "&nums", "[&nums]", "contains(nested, nested[0])", "`\"<a>&\\u2028\"`", "to_string(@)", "s", "z", "`[]`", "`{}`", "n", "t", "''", "o1.*", "keys(o1)", "@"}
 
 func indentJSON(r *gen.Rng, text string) string {
@@ -466,8 +478,10 @@ func genIOWorkload(r *gen.Rng) (expr, text string) {
 		expr = corpus[r.Intn(len(corpus))].Expr
 	case x < 72:
 		expr = gen.BrokenExprs[r.Intn(len(gen.BrokenExprs))]
-	case x < 82:
+	case x < 78:
 		expr = ioEvalErrExprs[r.Intn(len(ioEvalErrExprs))]
+	case x < 82:
+		expr = ioErrCombos[r.Intn(len(ioErrCombos))]
 	case x < 86:
 		expr = ioNumberExprs[r.Intn(len(ioNumberExprs))]
 	case x < 92:
